@@ -159,7 +159,7 @@ func (e *C01) one(ctx *core.Ctx) {
 		} else {
 			p.Spec.NodeName = node
 		}
-		p.Status.Phase = []corev1.PodPhase{corev1.PodRunning, corev1.PodRunning, corev1.PodRunning, corev1.PodPending, corev1.PodFailed, corev1.PodUnknown}[r.Intn(6)]
+		p.Status.Phase = []corev1.PodPhase{corev1.PodRunning, corev1.PodRunning, corev1.PodRunning, corev1.PodPending, corev1.PodFailed, corev1.PodUnknown, corev1.PodRunning, corev1.PodSucceeded}[r.Intn(8)]
 		if r.Intn(6) == 0 {
 			d := metav1.NewTime(t0)
 			p.DeletionTimestamp = &d
